@@ -365,7 +365,11 @@ class RecSet(set):
         r = self.rec
         if r is not None:
             r.in_bt = False
-            r.new_step(['E', r.idx(x)])
+            i = r.idx(x)
+            if r.kind == 'pfwd':
+                r.new_step(['PB', i] if type(r.ops[i].gate).__name__ == 'BarrierPlaceholder' else ['P', i, None, None])
+            else:
+                r.new_step(['E', i])
         set.remove(self, x)
 
 
@@ -418,7 +422,8 @@ def timelines(circuit):
 
 
 class patch_circuit:
-    """record append_gate / pop on every Circuit other than the input during a pass"""
+    """record append / pop on every Circuit other than the input during a pass
+    (Circuit.append is what append_gate and append_circuit(as_circuit_gate=True) end in)"""
 
     def __init__(self, rec, real):
         self.rec, self.real = rec, real
@@ -426,26 +431,25 @@ class patch_circuit:
     def __enter__(self):
         from bqskit.ir.circuit import Circuit
         self.C = Circuit
-        self.o_append, self.o_pop = Circuit.append_gate, Circuit.pop
+        self.o_append, self.o_pop = Circuit.append, Circuit.pop
         rec, real = self.rec, self.real
         o_append, o_pop = self.o_append, self.o_pop
 
-        def append_gate(slf, gate, location, params=[]):
+        def append(slf, op):
             if slf is not real:
-                loc = [location] if isinstance(location, int) else list(location)
-                rec.events.append(('append', gate, tuple(int(x) for x in loc)))
-            return o_append(slf, gate, location, params)
+                rec.events.append(('append', op.gate, tuple(int(x) for x in op.location)))
+            return o_append(slf, op)
 
         def pop(slf, point=None):
             op = o_pop(slf, point)
             if slf is not real:
                 rec.events.append(('pop', op.gate, tuple(op.location)))
             return op
-        Circuit.append_gate, Circuit.pop = append_gate, pop
+        Circuit.append, Circuit.pop = append, pop
         return self
 
     def __exit__(self, *a):
-        self.C.append_gate, self.C.pop = self.o_append, self.o_pop
+        self.C.append, self.C.pop = self.o_append, self.o_pop
 
 
 def recording(cls, log, adversary=None):
@@ -948,6 +952,587 @@ def oracle(case, obs, rng):
     return bad
 
 
+
+# --------------------------------------------------------------------------
+# PAM (permutation-aware mapping): exact pre-synthesised triples, recording,
+# model queries, oracle
+# --------------------------------------------------------------------------
+def conn_graphs(k):
+    return [[]] if k == 1 else list(all_connected_graphs(k))
+
+
+def swap_seq(k, edges, goal):
+    """BFS over arrangements: swaps along `edges` turning the identity arrangement into `goal`
+    (arr[w] = token on wire w)"""
+    start, goal = tuple(range(k)), tuple(goal)
+    prev = {start: None}
+    q = [start]
+    while q:
+        a = q.pop(0)
+        if a == goal:
+            break
+        for (x, y) in edges:
+            b = list(a)
+            b[x], b[y] = b[y], b[x]
+            b = tuple(b)
+            if b not in prev:
+                prev[b] = (a, (x, y))
+                q.append(b)
+    seq, a = [], goal
+    while prev[a] is not None:
+        a, e = prev[a]
+        seq.append(e)
+    return list(reversed(seq))
+
+
+def path_between(k, edges, a, b):
+    adj = {i: [] for i in range(k)}
+    for x, y in edges:
+        adj[x].append(y)
+        adj[y].append(x)
+    prev = {a: None}
+    q = [a]
+    while q:
+        x = q.pop(0)
+        for y in adj[x]:
+            if y not in prev:
+                prev[y] = x
+                q.append(y)
+    p = [b]
+    while prev[p[-1]] is not None:
+        p.append(prev[p[-1]])
+    return list(reversed(p))
+
+
+def build_triple(k, radix, inner, edges, pre, post):
+    """A circuit on k wires whose two-qudit gates lie on `edges` and whose unitary is EXACTLY
+    Po^T . U . Pi  (the contract of EmbedAllPermutationsPass; Pi / Po =
+    PermutationMatrix.from_qudit_location(k, radix, pre / post)): wire pre[j] is U's input j,
+    U's output j leaves on wire post[j]."""
+    from bqskit.ir.circuit import Circuit
+    sw = gate_of('SWAP') if radix == 2 else gate_of('SWAP3')
+    c = Circuit(k, [radix] * k)
+    es = [tuple(e) for e in edges]
+    eset = {tuple(sorted(e)) for e in es}
+    for e in swap_seq(k, es, pre):
+        c.append_gate(sw, e)
+    for tok, loc in inner:
+        g = gate_of(tok)
+        if len(loc) == 2 and tuple(sorted(loc)) not in eset:
+            p = path_between(k, es, loc[0], loc[1])
+            moves = [(p[i], p[i + 1]) for i in range(len(p) - 2)]
+            for e in moves:
+                c.append_gate(sw, e)
+            c.append_gate(g, (p[-2], loc[1]))
+            for e in reversed(moves):
+                c.append_gate(sw, e)
+        else:
+            c.append_gate(g, loc)
+    inv = [0] * k
+    for j, w in enumerate(post):
+        inv[w] = j
+    for e in swap_seq(k, es, inv):
+        c.append_gate(sw, e)
+    return c
+
+
+def make_perm_data(case, circuit, prng):
+    """data[ForEachBlockPass.key][-1]: one dict(point, permutation_data) per block"""
+    from bqskit.ir.gates import BarrierPlaceholder
+    from bqskit.ir.point import CircuitPoint
+    from bqskit.qis.graph import CouplingGraph
+    radix = case['radix']
+    inner_of = {}
+    for o in case['ops']:
+        if o[0] == 'BLOCK':
+            inner_of[json.dumps(o[2])] = o[2]
+    datas = []
+    for cyc, op in circuit.operations_with_cycles():
+        if isinstance(op.gate, BarrierPlaceholder):
+            continue
+        k = op.num_qudits
+        inner = [[tok_of(o.gate), list(o.location)] for o in op.gate._circuit]
+        perms = list(itertools.permutations(range(k)))
+        ident = tuple(range(k))
+        mode = case['mode']
+        if mode == 'both':
+            pairs = [(a, b) for a in perms for b in perms]
+            if len(pairs) > 10:
+                pairs = [(ident, ident)] + prng.sample(pairs, 9)
+        elif mode == 'out':
+            pairs = [(ident, b) for b in perms]
+        elif mode == 'in':
+            pairs = [(a, ident) for a in perms]
+        else:
+            pairs = [(ident, ident)]
+        pd = {}
+        for es in conn_graphs(k):
+            g = CouplingGraph([tuple(e) for e in es], k)
+            pd[g] = {}
+            for pre, post in pairs:
+                pd[g][(pre, post)] = build_triple(k, radix, inner, es, pre, post)
+        datas.append({'point': CircuitPoint(cyc, op.location[0]), 'permutation_data': pd})
+    return datas
+
+
+_TOK_CACHE = {}
+
+
+def tok_of(g):
+    key = (type(g).__name__, g.radixes)
+    if key not in _TOK_CACHE:
+        for t in G1 + G2 + G3 + Q1 + Q2:
+            h = gate_of(t)
+            if type(h) is type(g) and h.radixes == g.radixes:
+                _TOK_CACHE[key] = t
+                break
+        else:
+            raise ValueError('no token for %s' % g)
+    return _TOK_CACHE[key]
+
+
+def recording_pam(cls, log, adversary=None, score_adv=None):
+    """recording subclass of PAMLayoutPass / PAMRoutingPass"""
+    R = recording(cls, log, adversary)
+
+    class RP(R):
+        def forward_pass(self, circuit, pi, cg, perm_data, modify_circuit=False):
+            rec = PassRec('pfwd', circuit, pi, cg, modify_circuit)
+            rec.perm_data = perm_data
+            log.append(rec)
+            self._rec = rec
+            with patch_circuit(rec, circuit):
+                r = cls.forward_pass(self, CircuitProxy(circuit, rec, 'front'), pi, cg, perm_data, modify_circuit)
+            rec.snap()
+            rec.pi_end = list(pi)
+            self._rec = None
+            return r
+
+        def _get_best_perm(self, circuit, perm_data, cg, F, pi, D, E, qudits):
+            t = super()._get_best_perm(circuit, perm_data, cg, F, pi, D, E, qudits)
+            rec = getattr(self, '_rec', None)
+            if rec is not None:
+                qs = list(qudits)
+                ilperm = [qs.index(x) for x in t[0]]
+                pre = [ilperm.index(i) for i in range(len(qs))]
+                post = [qs.index(x) for x in t[2]]
+                for st in reversed(rec.steps):
+                    if st[0] == 'P' and st[2] is None and list(rec.ops[st[1]].location) == qs:
+                        st[2], st[3] = pre, post
+                        break
+                else:
+                    rec.problems.append('no pending block for chosen triple on %s' % qs)
+            return t
+
+        def _score_perm(self, circuit, F, pi, D, perm, E):
+            if score_adv is not None:
+                return score_adv()
+            return super()._score_perm(circuit, F, pi, D, perm, E)
+    RP.__name__ = 'RecPam' + cls.__name__
+    return RP
+
+
+def run_pam(case):
+    """[SetModel, placement?, (ApplyPlacement)?, <embed exact perm data>, PAMLayout?, PAMRouting, ApplyPlacement]"""
+    from bqskit.ir.circuit import Circuit
+    from bqskit.qis.graph import CouplingGraph
+    from bqskit.compiler.machine import MachineModel
+    from bqskit.compiler.passdata import PassData
+    from bqskit.passes.control.foreach import ForEachBlockPass
+    from bqskit.passes.mapping import (SetModelPass, GreedyPlacementPass, TrivialPlacementPass, ApplyPlacement,
+                                       PAMLayoutPass, PAMRoutingPass)
+    n, radix, m = case['n'], case['radix'], case['m']
+    circuit = build_circuit(n, radix, case['ops'])
+    original = circuit.copy()
+    cgm = CouplingGraph([tuple(e) for e in case['edges']], m)
+    model = MachineModel(m, cgm, radixes=[radix] * m)
+    _gu = Circuit.get_unitary
+
+    def _no_unitary(self, *a, **k):
+        raise RuntimeError('target not needed')
+    Circuit.get_unitary = _no_unitary
+    try:
+        data = PassData(circuit)
+    finally:
+        Circuit.get_unitary = _gu
+    log: list[PassRec] = []
+    prm = case['params']
+    kw = dict(decay_delta=prm['decay_delta'], decay_reset_interval=prm['decay_reset_interval'],
+              decay_reset_on_gate=prm['decay_reset_on_gate'], extended_set_size=prm['extended_set_size'],
+              extended_set_weight=prm['extended_set_weight'])
+    adversary = score_adv = None
+    if prm.get('adversary'):
+        arng = random.Random(prm['adversary'])
+        pa = prm.get('adv_p', 1.0)
+
+        def adversary(cands):
+            if not cands or arng.random() > pa:
+                return None
+            return arng.choice(cands)
+        if prm.get('adv_perm'):
+            def score_adv():
+                return arng.random()
+    prng = random.Random(case.get('perm_seed', 0))
+    madj = [[int(x) for x in cgm.get_neighbors_of(q)] for q in range(m)]
+    passes = [('setmodel', SetModelPass(model))]
+    if case['placer'] == 'G':
+        passes.append(('placement', GreedyPlacementPass()))
+    elif case['placer'] == 'T':
+        passes.append(('placement', TrivialPlacementPass()))
+    if case['seq'] == 'B':
+        passes.append(('apply0', ApplyPlacement()))
+    passes.append(('embed', None))
+    if case['layout_passes']:
+        passes.append(('playout', recording_pam(PAMLayoutPass, log, adversary, score_adv)(case['layout_passes'], case['gcw'], **kw)))
+    passes.append(('prouting', recording_pam(PAMRoutingPass, log, adversary, score_adv)(case['gcw'], **kw)))
+    passes.append(('apply', ApplyPlacement()))
+    obs = dict(stages=[], infos=[], error=None, kind='pam', mach_adj=madj, edges_final=case['edges'])
+
+    def snap():
+        return dict(placement=list(data.placement), imap=list(data.initial_mapping), fmap=list(data.final_mapping))
+
+    async def go():
+        for name, p in passes:
+            info = dict(before=snap(), nlog=len(log), mach=madj)
+            if name in ('prouting', 'apply', 'apply0', 'playout'):
+                info['circ_before'] = [op for _, op in circuit.operations_with_cycles()]
+                info['points_before'] = [(cyc, op.location[0]) for cyc, op in circuit.operations_with_cycles()]
+                info['nq_before'] = circuit.num_qudits
+            try:
+                if name == 'embed':
+                    obs['perm_data'] = make_perm_data(case, circuit, prng)
+                    data[ForEachBlockPass.key] = [obs['perm_data']]
+                    continue
+                await p.run(circuit, data)
+            except StepBudget as e:
+                obs['error'] = (name, 'StepBudget', str(e))
+                obs['error_info'] = info
+                obs['budget'] = str(e)
+                return
+            except Exception as e:  # noqa
+                obs['error'] = (name, type(e).__name__, str(e)[:200])
+                obs['error_info'] = info
+                return
+            info['log'] = log[info['nlog']:]
+            if name in ('prouting', 'apply', 'apply0'):
+                info['tl_after'] = timelines(circuit)
+            obs['stages'].append((name, snap()))
+            obs['infos'].append((name, info))
+    asyncio.run(go())
+    obs['log'] = log
+    obs['original'] = original
+    obs['final'] = circuit
+    obs['model_n'] = m
+    return obs
+
+
+def pam_table(ops, points, perm_datas):
+    """per operation: [[edges, pre, post], ...] of the triples available in perm_data"""
+    by_point = {(d['point'][0], d['point'][1]): d['permutation_data'] for d in perm_datas}
+    tbl, reg = [], {}
+    for i, (op, pt) in enumerate(zip(ops, points)):
+        row = []
+        pd = by_point.get(pt)
+        if pd is not None and type(op.gate).__name__ != 'BarrierPlaceholder':
+            for g, entries in pd.items():
+                es = sorted([min(a, b), max(a, b)] for a, b in g)
+                for (pre, post), circ in entries.items():
+                    row.append([es, list(pre), list(post)])
+                    reg[(i, tuple(map(tuple, es)), tuple(pre), tuple(post))] = circ
+        tbl.append(row)
+    return tbl, reg
+
+
+def pam_pass_line(rec, obs):
+    pts = [None] * len(rec.ops)
+    for p, i in rec.points.items():
+        pts[i] = p
+    tbl, reg = pam_table(rec.ops, pts, obs['perm_data'])
+    rec.reg = reg
+    bars = [1 if type(op.gate).__name__ == 'BarrierPlaceholder' else 0 for op in rec.ops]
+    # a pass that raised inside _get_best_perm leaves blocks that were removed from F but never
+    # given a triple: replay only the completed prefix
+    cut = next((i for i, s in enumerate(rec.steps) if s[0] == 'P' and s[2] is None), None)
+    rec.incomplete = cut is not None or rec.pi_end is None
+    steps = [list(s) for s in (rec.steps if cut is None else rec.steps[:cut])]
+    return 'ppass %s %s %s %s %d %d %s %s' % (fmt(rec.cg), fmt(circ_tokens(rec.ops)), fmt(bars), fmt(tbl), rec.nq,
+                                             1 if rec.modify else 0, fmt(rec.pi0), fmt(steps)), (bars, tbl, steps)
+
+
+def pam_model_lines(case, obs):
+    lines = []
+    for rec in obs['log']:
+        if rec.kind == 'pfwd':
+            line, rec.pam_args = pam_pass_line(rec, obs)
+            lines.append(line)
+        else:
+            lines.append('pass %s %s %d %d %d %s %s' % (
+                fmt(rec.cg), fmt(circ_tokens(rec.ops)), rec.nq, 0, 0, fmt(rec.pi0), fmt(rec.steps)))
+    stage_infos = list(obs['infos'])
+    if obs['error'] is not None and obs['error'][0] != 'embed':
+        stage_infos.append((obs['error'][0], obs['error_info']))
+    obs['stage_infos'] = stage_infos
+    for name, info in stage_infos:
+        g, pdb = fmt(info['mach']), pd_tok(info['before'])
+        if name == 'setmodel':
+            lines.append('sm %s %d %s' % (g, case['n'], pdb))
+        elif name == 'placement':
+            lines.append('plc %s %s %d %s' % (g, pdb, case['n'], case['placer']))
+        elif name in ('apply', 'apply0'):
+            out = [['G', i, list(op.location)] for i, op in enumerate(info['circ_before'])]
+            lines.append('ap %s %s %s' % (g, pdb, fmt(out)))
+        elif name in ('playout', 'prouting'):
+            recs = info.get('log', obs['log'][info['nlog']:])
+            ops = info['circ_before']
+            tbl, _ = pam_table(ops, info['points_before'], obs['perm_data'])
+            bars = [1 if type(op.gate).__name__ == 'BarrierPlaceholder' else 0 for op in ops]
+
+            def psteps(r):
+                cut = next((i for i, s in enumerate(r.steps) if s[0] == 'P' and s[2] is None), None)
+                return [list(s) for s in (r.steps if cut is None else r.steps[:cut])]
+            if name == 'playout':
+                pairs = []
+                for i in range(0, len(recs) - 1, 2):
+                    pairs.append([psteps(recs[i]), recs[i + 1].steps])
+                if len(recs) % 2:
+                    pairs.append([psteps(recs[-1]), []])
+                lines.append('play %s %s %s %s %s %d %s' % (g, pdb, fmt(circ_tokens(ops)), fmt(bars), fmt(tbl),
+                                                           info['nq_before'], fmt(pairs)))
+            else:
+                lines.append('prt %s %s %s %s %s %d %s' % (g, pdb, fmt(circ_tokens(ops)), fmt(bars), fmt(tbl),
+                                                          info['nq_before'], fmt(psteps(recs[0]) if recs else [])))
+    return lines
+
+
+def pout_timelines(pout, rec_or_ops, reg, nq):
+    """model PAM out -> per-qudit timelines with comparable gate tokens"""
+    from bqskit.ir.gates import CircuitGate
+    ops = rec_or_ops
+    tl = [[] for _ in range(nq)]
+    for o in pout:
+        if o[0] == 'G':
+            key = (o[1], tuple(tuple(e) for e in o[5]), tuple(o[3]), tuple(o[4]))
+            circ = reg.get(key)
+            g = gname(CircuitGate(circ)) if circ is not None else 'UNKNOWN-TRIPLE%s' % (key,)
+            loc = tuple(o[2])
+        elif o[0] == 'B':
+            g, loc = gname(ops[o[1]].gate), tuple(o[2])
+        else:
+            g, loc = 'SWAP', (o[1], o[2])
+        for q in loc:
+            tl[q].append((g, loc))
+    return tl
+
+
+def compare_ppass(rec, ans, where):
+    diffs = []
+    if isinstance(ans, str):
+        return [(where + ': model raised', ans, 'pass completed')]
+    status, pi, fs, out, stricts = ans
+    if status != 'OK':
+        k = status[1]
+        return [(where + ': step %d %s not enabled in the model' % (k, rec.steps[k]), 'enabled', status)]
+    if rec.problems:
+        diffs.append(('recorder', 'consistent events', rec.problems))
+    if getattr(rec, 'incomplete', False):
+        # the implementation raised inside this pass: only the enabledness of the prefix is compared
+        return [(where + ': ' + w, e, o) for w, e, o in diffs]
+    if pi != rec.pi_end:
+        diffs.append(('pi at the end of the pass', pi, rec.pi_end))
+    if fs != rec.fs:
+        k = next((i for i, (a, b) in enumerate(zip(fs, rec.fs)) if a != b), min(len(fs), len(rec.fs)))
+        diffs.append(('front set after step %d' % k, fs[k] if k < len(fs) else None, rec.fs[k] if k < len(rec.fs) else None))
+    if rec.fs and rec.fs[-1] != []:
+        diffs.append(('pass ended with a non-empty front set', [], rec.fs[-1]))
+    if not all(x == 'T' for x in stricts):
+        k = stricts.index('F')
+        diffs.append(('control flow guard of step %d %s' % (k, rec.steps[k]), 'T', 'F'))
+    if rec.modify and rec.mapped is not None:
+        na = canon_tl(pout_timelines(out, rec.ops, rec.reg, rec.nq))
+        nb = canon_tl(rec.mapped)
+        if na != nb:
+            diffs.append(('mapped circuit per-qudit timelines', na, nb))
+    return [(where + ': ' + w, e, o) for w, e, o in diffs]
+
+
+def compare_pam_stages(case, obs, answers):
+    diffs = []
+    ist = dict(obs['stages'])
+    for (name, info), ans in zip(obs['stage_infos'], answers):
+        failed = obs['error'] is not None and obs['error'][0] == name
+        if isinstance(ans, str) and ans != 'ERR':
+            diffs.append(('stage %s: model raised' % name, ans, 'n/a'))
+            continue
+        if failed:
+            if ans != 'ERR':
+                diffs.append(('stage %s raised %s in the implementation' % (name, obs['error'][1]), 'ERR', ans))
+            continue
+        if ans == 'ERR':
+            diffs.append(('stage %s: model fails, implementation does not' % name, 'ERR', ist[name]))
+            continue
+        iv = ist[name]
+        exp = [iv['placement'], iv['imap'], iv['fmap']]
+        if name in ('apply', 'apply0'):
+            out, pd = ans
+            gates = [op.gate for op in info['circ_before']]
+            na = canon_tl(out_timelines(out, gates, len(info['tl_after'])))
+            if na != canon_tl(info['tl_after']):
+                diffs.append(('stage %s: circuit per-qudit timelines' % name, na, canon_tl(info['tl_after'])))
+        elif name == 'prouting':
+            out, pd = ans
+            _, reg = pam_table(info['circ_before'], info['points_before'], obs['perm_data'])
+            na = canon_tl(pout_timelines(out, info['circ_before'], reg, len(info['tl_after'])))
+            if na != canon_tl(info['tl_after']):
+                diffs.append(('stage %s: circuit per-qudit timelines' % name, na, canon_tl(info['tl_after'])))
+        else:
+            pd = ans
+        if pd != exp:
+            diffs.append(('stage %s: PassData (placement, initial_mapping, final_mapping)' % name, pd, exp))
+    return diffs
+
+
+def flatten_blocks(circuit):
+    """operations with CircuitGate blocks unfolded (for the coupling and semantic oracle)"""
+    from bqskit.ir.gates import BarrierPlaceholder, CircuitGate
+    flat = []
+    for cyc, op in circuit.operations_with_cycles():
+        if isinstance(op.gate, BarrierPlaceholder):
+            continue
+        if isinstance(op.gate, CircuitGate):
+            for o in op.gate._circuit:
+                flat.append((o.gate, tuple(op.location[q] for q in o.location)))
+        else:
+            flat.append((op.gate, tuple(op.location)))
+    return flat
+
+
+def pam_oracle(case, obs, rng):
+    """property oracle for the PAM pipelines, independent of the model: blocks are unfolded; the
+    inner two-qudit gates must lie on machine edges, mappings injective, exact action on basis states"""
+    bad = []
+    if obs['error'] is not None:
+        return bad
+    n, m, radix = case['n'], case['m'], case['radix']
+    edges = {tuple(sorted(e)) for e in case['edges']}
+    st = dict(obs['stages'])
+    im, fm = st['apply']['imap'], st['apply']['fmap']
+    flat = flatten_blocks(obs['final'])
+    for g, loc in flat:
+        if len(loc) == 2 and tuple(sorted(loc)) not in edges:
+            bad.append(('uncoupled', 'edge of the machine', (str(g), loc)))
+        elif len(loc) >= 3 and not connected(m, edges, loc):
+            bad.append(('uncoupled', 'connected induced subgraph', (str(g), loc)))
+    for name, mp_ in (('initial_mapping', im), ('final_mapping', fm)):
+        if len(mp_) < n or len(set(mp_)) != len(mp_) or not all(0 <= x < m for x in mp_):
+            bad.append(('mapping', '%s injective into range(%d)' % (name, m), mp_))
+    plc = st['prouting']['placement']
+    if len(set(plc)) != len(plc) or not all(0 <= x < m for x in plc) or not connected(m, edges, plc):
+        bad.append(('placement', 'connected duplicate-free set of physical qudits', plc))
+    # only swaps or permuted versions of the input's own blocks: number of blocks / barriers preserved
+    def kinds(c):
+        d = {}
+        for op in c:
+            k = 'BAR' if type(op.gate).__name__ == 'BarrierPlaceholder' else ('SWAP' if type(op.gate).__name__ == 'SwapGate' else 'BLOCK%d' % op.num_qudits)
+            d[k] = d.get(k, 0) + 1
+        return d
+    ki, ko = kinds(obs['original']), kinds(obs['final'])
+    for k in set(ki) | set(ko):
+        if k != 'SWAP' and ki.get(k, 0) != ko.get(k, 0):
+            bad.append(('gates', 'same number of %s' % k, (ki.get(k, 0), ko.get(k, 0))))
+    if bad:
+        return bad
+    if radix ** n <= 64:
+        states = [list(x) for x in itertools.product(range(radix), repeat=n)]
+    else:
+        states = [[0] * n, [radix - 1] * n] + [[(1 if i == j else 0) for i in range(n)] for j in range(n)]
+        states += [[rng.randrange(radix) for _ in range(n)] for _ in range(40)]
+    try:
+        ref = simulate(flatten_blocks(obs['original']), [radix] * n, states)
+        emb = []
+        for x in states:
+            p = [0] * m
+            for l in range(n):
+                p[im[l]] = x[l]
+            emb.append(p)
+        got = simulate(flat, [radix] * m, emb)
+    except ValueError as e:
+        return [('oracle', 'monomial circuit', str(e))]
+    for x, (ph, y), (ph2, z) in zip(states, ref, got):
+        exp = [0] * m
+        for l in range(n):
+            exp[fm[l]] = y[l]
+        if ph != ph2 or exp != z:
+            bad.append(('semantics', dict(input=x, logical_output=y, phase=ph, physical_expected=exp),
+                        dict(physical_output=z, phase=ph2, initial_mapping=im, final_mapping=fm)))
+            break
+    return bad
+
+
+def gen_pam_case(rng):
+    m = rng.randint(3, 7)
+    n = rng.randint(2, min(6, m))
+    edges = prefix_connected_graph(rng, m, n, rng.choice([0, 0.1, 0.3]))
+    blocks = []
+    for _ in range(rng.randint(1, 8)):
+        if rng.random() < 0.08:
+            blocks.append(['BAR', sorted(rng.sample(range(n), rng.randint(1, n)))])
+            continue
+        k = min(n, rng.choice([1, 2, 2, 3, 3]))
+        loc = sorted(rng.sample(range(n), k))
+        inner = []
+        only1 = k == 1 or rng.random() < 0.04        # multi-qudit blocks of single-qudit gates: rare
+        for j in range(rng.randint(1, 4)):
+            if only1 or (j > 0 and rng.random() < 0.3):
+                inner.append([rng.choice(G1), [rng.randrange(k)]])
+            elif k == 3 and rng.random() < 0.2:
+                inner.append(['CCX', rng.sample(range(3), 3)])
+            else:
+                inner.append([rng.choice(G2), rng.sample(range(k), 2)])
+        blocks.append(['BLOCK', loc, inner])
+    prm = rand_params(rng)
+    prm['adv_perm'] = rng.random() < 0.5
+    return dict(kind='pam', n=n, m=m, radix=2, edges=[list(e) for e in edges], ops=blocks,
+                mode=rng.choice(['out', 'in', 'both', 'none']), seq=rng.choice(['A', 'B']),
+                placer=rng.choice(['N', 'G', 'T']), layout_passes=rng.choice([0, 1, 2]),
+                gcw=rng.choice([0.0, 0.1, 0.3, 2.0]), params=prm, perm_seed=rng.randrange(1 << 20), malformed=None)
+
+
+def finish_pam(case, obs, lines, outs):
+    res = dict(diffs=[], oracle=[], stats={}, error=obs['error'])
+    if len(outs) != len(lines):
+        res['diffs'].append(('driver', '%d answers' % len(lines), '%d answers' % len(outs)))
+        return res
+
+    def parse(a):
+        return pv(a) if not a.startswith('EXN') and a != 'BADCMD' else a
+    nlog = len(obs['log'])
+    for i, rec in enumerate(obs['log']):
+        if rec.kind == 'pfwd':
+            res['diffs'] += compare_ppass(rec, parse(outs[i]), 'pam fwd pass #%d' % i)
+        else:
+            res['diffs'] += compare_pass(rec, parse(outs[i]), 'bwd pass #%d' % i)
+    res['diffs'] += compare_pam_stages(case, obs, [parse(a) for a in outs[nlog:]])
+    res['oracle'] = pam_oracle(case, obs, random.Random(json.dumps(case, sort_keys=True)))
+    st = res['stats']
+    st['pam'] = 1
+    st['steps'] = sum(len(r.steps) for r in obs['log'])
+    for r in obs['log']:
+        for x in r.steps:
+            st[x[0]] = st.get(x[0], 0) + 1
+            if x[0] == 'P' and x[2] is not None and (x[2] != sorted(x[2]) or x[3] != sorted(x[3])):
+                st['P_nonid'] = st.get('P_nonid', 0) + 1
+    st['passes'] = len(obs['log'])
+    st['swaps_emitted'] = sum(1 for r in obs['log'] if r.modify for x in r.steps if x[0] in 'SU')
+    if obs['error'] is None:
+        stg = dict(obs['stages'])
+        st['placement_nonid'] = stg['prouting']['placement'] != list(range(len(stg['prouting']['placement'])))
+        st['fmap_ne_imap'] = stg['apply']['imap'] != stg['apply']['fmap']
+    js = lambda x: json.loads(json.dumps(x, default=str))  # noqa
+    res['diffs'] = [(w, js(e), js(o)) for w, e, o in res['diffs']]
+    res['oracle'] = [(w, js(e), js(o)) for w, e, o in res['oracle']]
+    return res
+
+
 # --------------------------------------------------------------------------
 # case generation
 # --------------------------------------------------------------------------
@@ -1015,6 +1600,9 @@ def gen_cases(ctx):
         c['variant'] = 'double'
         c['edges2'] = [list(e) for e in prefix_connected_graph(rng, m, n, rng.choice([0.0, 0.1]))]
         cases.append(c)
+    # permutation-aware mapping (PAM) with exact pre-synthesised triples
+    for _ in range(ctx.n(110, 1500)):
+        cases.append(gen_pam_case(rng))
     # malformed stream: disconnected machine, machine too small
     for _ in range(ctx.n(45, 500)):
         kind = rng.choice(['disconnected', 'small', 'trivial_disconnected'])
@@ -1080,11 +1668,12 @@ def evaluate_chunk(cases):
     prepared, all_lines = [], []
     for case in cases:
         try:
-            obs = run_impl(case)
+            pam = case.get('kind') == 'pam'
+            obs = run_pam(case) if pam else run_impl(case)
             if obs.get('budget'):
                 prepared.append((case, 'budget', obs['budget']))
                 continue
-            lines = model_lines(case, obs)
+            lines = pam_model_lines(case, obs) if pam else model_lines(case, obs)
         except Exception:  # noqa
             import traceback
             prepared.append((case, None, traceback.format_exc()[-1500:]))
@@ -1104,7 +1693,7 @@ def evaluate_chunk(cases):
         mine = outs[pos:pos + len(lines)]
         pos += len(lines)
         try:
-            res.append(finish(case, obs, lines, mine))
+            res.append(finish_pam(case, obs, lines, mine) if case.get('kind') == 'pam' else finish(case, obs, lines, mine))
         except Exception:  # noqa
             import traceback
             res.append(dict(diffs=[('harness raised', 'no exception', traceback.format_exc()[-1500:])], oracle=[], stats={}, error=None))
